@@ -136,7 +136,7 @@ def real_collect(alns, high_memory):
     col.bam_pairs = [(FakeBam(objs), "fake.bam")]
     col.bam_merger = AP.BAMOnlineMerger(col.bam_pairs, "chrF", 0, 10 ** 12, multiple_iterators=not high_memory)
     col.alignment_stat_counter = ST.EnumStats()
-    col.process_alignments_in_region = lambda region, it: (tuple(region), [a.rid for _, a in it])
+    col.process_alignments_in_region = lambda region, it, gene_region=None: (tuple(region), [a.rid for _, a in it])
 
     def run():
         return [[list(r), ids] for r, ids in col.process()]
